@@ -281,6 +281,37 @@ fn registry() -> Vec<Op> {
         op!("boxed.from_to_le_bytes", true, true, |i| { let b = i.ba.to_le_bytes(); b.iter().fold(0u64, |h, x| h.rotate_left(3) ^ *x as u64) }),
         op!("boxedmonty.square_div_by_2", true, true, |i| { let p = BoxedMontyParams::new_vartime(oddbm(i)); let x = BoxedMontyForm::new(i.ba.clone(), p); foldb(x.square().div_by_2().as_montgomery()) }),
         op!("boxedmonty.retrieve", true, true, |i| { let p = BoxedMontyParams::new_vartime(oddbm(i)); foldb(&BoxedMontyForm::new(i.ba.clone(), p).retrieve()) }),
+        // --- trait and operator routes with a SECRET shift amount (the inherent methods are covered above)
+        op!("uint.wrapping_shr(secret amount)", true, true, |i| fold(&i.a.wrapping_shr((i.b.as_words()[0] % 600) as u32))),
+        op!("uint.WrappingShl(secret amount)", true, true, |i| fold(&num_traits::WrappingShl::wrapping_shl(&i.a, (i.b.as_words()[0] % 600) as u32))),
+        op!("uint.WrappingShr(secret amount)", true, true, |i| fold(&num_traits::WrappingShr::wrapping_shr(&i.a, (i.b.as_words()[0] % 600) as u32))),
+        op!("uint.op_shl(secret amount)", true, true, |i| { let s = (i.b.as_words()[0] % 256) as u32; let mut t = i.a; t <<= s; fold(&(i.a << s)) ^ fold(&(&i.a << s)) ^ fold(&t) ^ fold(&(i.a << (s as usize))) ^ fold(&(i.a << (s as i32))) }),
+        op!("uint.op_shr(secret amount)", true, true, |i| { let s = (i.b.as_words()[0] % 256) as u32; let mut t = i.a; t >>= s; fold(&(i.a >> s)) ^ fold(&(&i.a >> s)) ^ fold(&t) ^ fold(&(i.a >> (s as usize))) ^ fold(&(i.a >> (s as i32))) }),
+        op!("uint1024.shl_shr(secret amount)", true, true, |i| { let s = (i.b.as_words()[0] % 1024) as u32; foldw(&i.wa.shl(s)) ^ foldw(&i.wa.shr(s)) ^ foldw(&num_traits::WrappingShr::wrapping_shr(&i.wa, s)) ^ foldw(&num_traits::WrappingShl::wrapping_shl(&i.wa, s)) }),
+        op!("int.op_shr(secret amount)", true, true, |i| { let s = (i.b.as_words()[0] % 256) as u32; fold((i.a.as_int() >> s).as_uint()) ^ fold((i.a.as_int() << s).as_uint()) }),
+        op!("boxed.op_shl_shr(secret amount)", true, true, |i| { let s = (i.b.as_words()[0] % 256) as u32; let mut t = i.ba.clone(); t <<= s; let mut v = i.ba.clone(); v >>= s; foldb(&(&i.ba << s)) ^ foldb(&(&i.ba >> s)) ^ foldb(&t) ^ foldb(&v) }),
+        op!("boxed.WrappingShl_Shr(secret amount)", true, true, |i| { let s = (i.b.as_words()[0] % 600) as u32; foldb(&num_traits::WrappingShl::wrapping_shl(&i.ba, s)) ^ foldb(&num_traits::WrappingShr::wrapping_shr(&i.ba, s)) ^ foldb(&i.ba.wrapping_shl(s)) ^ foldb(&i.ba.wrapping_shr(s)) }),
+        op!("limb.op_shl_shr(secret amount)", true, true, |i| { let s = (i.b.as_words()[0] % 64) as u32; let x = Limb(i.a.as_words()[0]); (x << s).0 ^ (x >> s).0 ^ x.shl(s).0 ^ x.shr(s).0 }),
+        // --- trait routes of arithmetic and comparison
+        op!("uint.trait_arith", true, true, |i| fold(&num_traits::WrappingAdd::wrapping_add(&i.a, &i.b)) ^ fold(&num_traits::WrappingSub::wrapping_sub(&i.a, &i.b)) ^ fold(&num_traits::WrappingMul::wrapping_mul(&i.a, &i.b)) ^ fold(&num_traits::WrappingNeg::wrapping_neg(&i.a))
+            ^ fold(&CheckedAdd::checked_add(&i.a, &i.b).unwrap_or(U::ZERO)) ^ fold(&CheckedSub::checked_sub(&i.a, &i.b).unwrap_or(U::ZERO)) ^ fold(&CheckedMul::checked_mul(&i.a, &i.b).unwrap_or(U::ZERO))),
+        op!("uint.trait_cmp", true, true, |i| (i.a == i.b) as u64 ^ ((i.a < i.b) as u64) << 1 ^ ((i.a >= i.b) as u64) << 2 ^ (Ord::max(i.a, i.b).as_words()[0]) ^ (i.a.partial_cmp(&i.b).unwrap() as i8 as u64)),
+        op!("boxed.trait_arith", true, true, |i| foldb(&num_traits::WrappingAdd::wrapping_add(&i.ba, &i.bb)) ^ foldb(&num_traits::WrappingSub::wrapping_sub(&i.ba, &i.bb)) ^ foldb(&num_traits::WrappingMul::wrapping_mul(&i.ba, &i.bb)) ^ foldb(&num_traits::WrappingNeg::wrapping_neg(&i.ba))
+            ^ foldc(CheckedAdd::checked_add(&i.ba, &i.bb).is_some()) ^ foldc(CheckedSub::checked_sub(&i.ba, &i.bb).is_some())),
+        op!("boxed.trait_cmp", true, true, |i| (i.ba == i.bb) as u64 ^ ((i.ba < i.bb) as u64) << 1 ^ ((i.ba >= i.bb) as u64) << 2 ^ (i.ba.partial_cmp(&i.bb).unwrap() as i8 as u64)),
+        // --- boxed operands of DIFFERENT precision (256-bit against 2048-bit, both orders)
+        op!("boxed.mixed.ct_eq", true, true, |i| foldc(i.ba.ct_eq(&i.bwa)) ^ foldc(i.bwa.ct_eq(&i.ba)) ^ ((i.ba == i.bwb) as u64) << 1),
+        op!("boxed.mixed.ct_lt_gt", true, true, |i| foldc(i.ba.ct_lt(&i.bwa)) ^ foldc(i.bwa.ct_lt(&i.ba)) ^ foldc(i.ba.ct_gt(&i.bwb)) ^ foldc(i.bwb.ct_gt(&i.ba))),
+        op!("boxed.mixed.cmp", true, true, |i| (i.ba.cmp(&i.bwa) as i8 as u64) ^ ((i.bwb.cmp(&i.bb) as i8 as u64) << 8) ^ ((i.bwa.partial_cmp(&i.ba).unwrap() as i8 as u64) << 16)),
+        op!("boxed.mixed.add_sub(narrow rhs)", true, true, |i| foldb(&i.bwa.adc(&i.ba, Limb::ZERO).0) ^ foldb(&i.bwa.sbb(&i.bb, Limb::ZERO).0) ^ foldb(&i.bwa.wrapping_add(&i.ba)) ^ foldb(&i.bwa.wrapping_sub(&i.bb))
+            ^ foldc(i.bwb.checked_add(&i.ba).is_some()) ^ foldc(i.bwb.checked_sub(&i.bb).is_some())),
+        op!("boxed.mixed.add_sub(wide rhs)", true, true, |i| foldb(&i.ba.wrapping_add(&i.bwa)) ^ foldb(&i.ba.wrapping_sub(&i.bwb)) ^ foldc(i.ba.checked_add(&i.bwa).is_some())),
+        op!("boxed.mixed.mul", true, true, |i| foldb(&i.ba.mul(&i.bwa)) ^ foldb(&i.bwb.mul(&i.bb)) ^ foldb(&i.ba.wrapping_mul(&i.bwa))),
+        op!("boxed.mixed.bitops", true, true, |i| foldb(&i.bwa.bitand(&i.bwb)) ^ foldb(&i.bwa.bitor(&i.bwb)) ^ foldb(&i.bwa.bitxor(&i.bwb)) ^ foldb(&i.bwa.clone().not())),
+        op!("boxed.resize", true, true, |i| foldb(&i.ba.widen(2048)) ^ foldb(&i.bwa.shorten(256)) ^ foldb(&i.ba.clone().widen(320))),
+        // --- wrappers built from secrets
+        op!("wrappers.new", true, true, |i| foldc(NonZero::new(i.a).is_some()) ^ foldc(Odd::new(i.b).is_some()) ^ foldc(NonZero::new(i.ba.clone()).is_some()) ^ foldc(Odd::new(i.bb.clone()).is_some())
+            ^ foldc(i.a.to_nz().is_some().into()) ^ foldc(i.b.to_odd().is_some().into()) ^ foldc(NonZero::new(Limb(i.a.as_words()[0])).is_some())),
         // --- limb level
         op!("limb.arith", true, true, |i| { let (x, y) = (Limb(i.a.as_words()[0]), Limb(i.b.as_words()[0])); x.wrapping_add(y).0 ^ x.wrapping_sub(y).0 ^ x.wrapping_mul(y).0 ^ x.saturating_add(y).0 ^ x.saturating_mul(y).0 }),
         op!("limb.adc_sbb", true, true, |i| { let (x, y) = (Limb(i.a.as_words()[0]), Limb(i.b.as_words()[0])); let (s, c) = x.adc(y, Limb(i.a.as_words()[1])); let (d, bw) = x.sbb(y, Limb(i.b.as_words()[1])); s.0 ^ c.0 ^ d.0 ^ bw.0 }),
